@@ -1,3 +1,240 @@
-(* C38 - placeholder while the proofs are being written *)
-From Coq Require Import List ZArith.
-From SAV.orm Require Import CollRun.
+(* C38 - instrumented collections behave exactly like the Python types they wrap.
+   Statements only; every proof is [exact <lemma>].
+
+   sa_*_op  : the wrappers of orm/collections.py (_list_decorators, _set_decorators,
+              _dict_decorators) as they are NOW, running on (contents, event log);
+   py_*_op  : the builtin list / set / dict (reference semantics, base/PySlice.v);
+   countZ x l - countZ x l0 = net x g : (multiset after) - (multiset before) =
+              (#append events) - (#remove events), per member x.
+   Where the code violates the property there is a [_refuted] theorem with a concrete witness and a
+   [_guarded] theorem for the complement (the guards are the boolean functions list_eq_guard,
+   list_acct_guard, set_eq_guard, dict_acct_guard of the model files). *)
+From Coq Require Import List ZArith Bool Permutation.
+Import ListNotations.
+From SAV.base Require Import PySlice.
+From SAV.orm Require Import CollBase CollList CollSet CollDict CollProofs
+  CollListProofs CollSetProofs CollDictProofs CollWitness.
+Open Scope Z_scope.
+
+(* ============================== list ============================== *)
+
+(* every list operation with every argument value: same result / exception and same contents as
+   the builtin, from every contents [l] and whatever was logged before *)
+Theorem c38_list_ops_eq_python_guarded : forall op l g, list_eq_guard l op = true ->
+  fst (sa_list_op op (l, g)) = fst (py_list_op l op) /\
+  fst (snd (sa_list_op op (l, g))) = snd (py_list_op l op).
+Proof. exact list_op_eq_python. Qed.
+Print Assumptions c38_list_ops_eq_python_guarded.
+
+(* in particular slice assignment of a list / tuple with ANY start, stop, step (negative,
+   out of range, reversed, zero): no guard at all - this is the defect repaired by 1d9f897 *)
+Theorem c38_list_slice_assignment_eq_python : forall start stop step w l g,
+  let op := LSetSlice (mkslice start stop step) (VList w) in
+  fst (sa_list_op op (l, g)) = fst (py_list_op l op) /\
+  fst (snd (sa_list_op op (l, g))) = snd (py_list_op l op).
+Proof. exact list_slice_assignment_eq_python. Qed.
+Print Assumptions c38_list_slice_assignment_eq_python.
+
+Theorem c38_list_setslice_self_refuted : exists l op,
+  list_eq_guard l op = false /\ sa_list_rc l op = (Ok RNone, [0;1;2]) /\
+  py_list_op l op = (Ok RNone, [0;0;1;2;2]).
+Proof. exact refuted_setslice_self. Qed.
+Print Assumptions c38_list_setslice_self_refuted.
+
+Theorem c38_list_extslice_self_refuted : exists l op,
+  list_eq_guard l op = false /\ sa_list_rc l op = (Ok RNone, [0;0]) /\
+  py_list_op l op = (Ok RNone, [1;0]).
+Proof. exact refuted_extslice_self. Qed.
+Print Assumptions c38_list_extslice_self_refuted.
+
+Theorem c38_list_setslice_noniterable_refuted : exists l op,
+  list_eq_guard l op = false /\ sa_list_run1 l op = (Raise TypeError, [2], [ERem 0; ERem 1]) /\
+  py_list_op l op = (Raise TypeError, [0;1;2]).
+Proof. exact refuted_setslice_noniterable. Qed.
+Print Assumptions c38_list_setslice_noniterable_refuted.
+
+Theorem c38_list_extslice_iterator_refuted : exists l op,
+  list_eq_guard l op = false /\ sa_list_run1 l op = (Raise TypeError, [0;1;2], []) /\
+  py_list_op l op = (Ok RNone, [7;1;8]).
+Proof. exact refuted_extslice_iterator. Qed.
+Print Assumptions c38_list_extslice_iterator_refuted.
+
+(* the events fired by an operation account exactly for the change of contents - also when the
+   operation raises half way *)
+Theorem c38_list_events_account_guarded : forall op l g r l' g',
+  list_acct_guard l op = true ->
+  sa_list_op op (l, g) = (r, (l', g')) ->
+  forall x, countZ x l' - countZ x l = net x g' - net x g.
+Proof. exact list_op_accounted. Qed.
+Print Assumptions c38_list_events_account_guarded.
+
+Theorem c38_list_remove_absent_refuted : exists l op,
+  list_acct_guard l op = false /\
+  sa_list_run1 l op = (Raise ValueError, l, [ERem 7]) /\ unaccounted l l [ERem 7].
+Proof. exact refuted_remove_absent. Qed.
+Print Assumptions c38_list_remove_absent_refuted.
+
+Theorem c38_list_imul_refuted : exists l op,
+  list_acct_guard l op = false /\
+  sa_list_run1 l op = (Ok RSelf, [0;1;0;1], []) /\ unaccounted l [0;1;0;1] [].
+Proof. exact refuted_imul. Qed.
+Print Assumptions c38_list_imul_refuted.
+
+(* the accounting guard excludes exactly the defective region: outside it accounting always fails *)
+Theorem c38_list_acct_guard_exact : forall l op g, list_acct_guard l op = false ->
+  let '(_, (l', g')) := sa_list_op op (l, g) in
+  exists x, countZ x l' - countZ x l <> net x g' - net x g.
+Proof. exact list_acct_guard_exact. Qed.
+Print Assumptions c38_list_acct_guard_exact.
+
+(* arbitrary histories *)
+Theorem c38_list_history_eq_python_guarded : forall ops l g,
+  all_guard list_eq_guard ops l = true ->
+  fst (sa_list_run ops (l, g)) = fst (py_list_run ops l) /\
+  fst (snd (sa_list_run ops (l, g))) = snd (py_list_run ops l).
+Proof. exact list_history_eq_python. Qed.
+Print Assumptions c38_list_history_eq_python_guarded.
+
+Theorem c38_list_history_events_account_guarded : forall ops l g,
+  sa_guarded list_acct_guard ops (l, g) = true ->
+  forall x, let '(_, (l', g')) := sa_list_run ops (l, g) in
+            countZ x l' - countZ x l = net x g' - net x g.
+Proof. exact list_history_accounted. Qed.
+Print Assumptions c38_list_history_events_account_guarded.
+
+(* the reference semantics used above: a slice read and the deletion of the same slice partition
+   the list (what `del c[sl]` reports as removed is what disappears) *)
+Theorem c38_py_getslice_delslice_partition : forall (l : list Z) sl g d,
+  py_getslice l sl = Ok g -> py_delslice l sl = Ok d -> Permutation l (g ++ d).
+Proof. exact (PySliceProofs.getslice_delslice_perm Z). Qed.
+Print Assumptions c38_py_getslice_delslice_partition.
+
+(* ============================== set ============================== *)
+(* [ord] is the iteration order of builtin sets: any function returning a permutation *)
+
+Theorem c38_set_ops_eq_python_guarded : forall (ord : list Z -> list Z),
+  (forall l, Permutation (ord l) l) ->
+  forall op s g, NoDup s -> set_eq_guard s op = true ->
+  fst (sa_set_op ord op (s, g)) = fst (py_set_op ord s op) /\
+  Permutation (fst (snd (sa_set_op ord op (s, g)))) (snd (py_set_op ord s op)).
+Proof. exact set_op_eq_python. Qed.
+Print Assumptions c38_set_ops_eq_python_guarded.
+
+Theorem c38_set_isub_self_refuted : exists s op,
+  set_eq_guard s op = false /\
+  sa_set_run1 (fun l => l) s op = (Raise RuntimeError, [], [ERem 0]) /\
+  py_set_op (fun l => l) s op = (Ok RSelf, []).
+Proof. exact refuted_set_isub_self. Qed.
+Print Assumptions c38_set_isub_self_refuted.
+
+(* no exception: every set operation is accounted, and keeps the contents duplicate-free *)
+Theorem c38_set_events_account : forall (ord : list Z -> list Z),
+  (forall l, Permutation (ord l) l) ->
+  forall op s g r s' g', NoDup s -> sa_set_op ord op (s, g) = (r, (s', g')) ->
+  NoDup s' /\ forall x, countZ x s' - countZ x s = net x g' - net x g.
+Proof. exact set_op_accounted. Qed.
+Print Assumptions c38_set_events_account.
+
+(* histories: every step of every history is a step of the builtin set from the state reached
+   (which member pop() takes is the builtin's choice, hence step by step) *)
+Theorem c38_set_history_eq_python_guarded : forall (ord : list Z -> list Z),
+  (forall l, Permutation (ord l) l) ->
+  forall ops s g, NoDup s -> Forall (set_step_ok ord) (sa_set_trace ord ops (s, g)).
+Proof. exact set_history_eq_python. Qed.
+Print Assumptions c38_set_history_eq_python_guarded.
+
+Theorem c38_set_history_events_account : forall (ord : list Z -> list Z),
+  (forall l, Permutation (ord l) l) ->
+  forall ops s g, NoDup s ->
+  let '(_, (s', g')) := sa_set_run ord ops (s, g) in
+  NoDup s' /\ forall x, countZ x s' - countZ x s = net x g' - net x g.
+Proof. exact set_history_accounted. Qed.
+Print Assumptions c38_set_history_events_account.
+
+(* ============================== dict ============================== *)
+
+(* no exception: result / exception / contents (with insertion order) always equal the builtin *)
+Theorem c38_dict_ops_eq_python : forall op d g,
+  fst (sa_dict_op op (d, g)) = fst (py_dict_op d op) /\
+  fst (snd (sa_dict_op op (d, g))) = snd (py_dict_op d op).
+Proof. exact dict_op_eq_python. Qed.
+Print Assumptions c38_dict_ops_eq_python.
+
+Theorem c38_dict_events_account_guarded : forall op d g r d' g',
+  d_wf d -> dict_acct_guard d op = true ->
+  sa_dict_op op (d, g) = (r, (d', g')) ->
+  d_wf d' /\ forall x, countZ x (d_values d') - countZ x (d_values d) = net x g' - net x g.
+Proof. exact dict_op_accounted. Qed.
+Print Assumptions c38_dict_events_account_guarded.
+
+Theorem c38_dict_ior_refuted : exists d op,
+  dict_acct_guard d op = false /\
+  sa_dict_run1 d op = (Ok RSelf, [(0, 7); (1, 1); (5, 8)], []) /\
+  unaccounted (d_values d) [7; 1; 8] [].
+Proof. exact refuted_dict_ior. Qed.
+Print Assumptions c38_dict_ior_refuted.
+
+Theorem c38_dict_history_eq_python : forall ops d g,
+  fst (sa_dict_run ops (d, g)) = fst (py_dict_run ops d) /\
+  fst (snd (sa_dict_run ops (d, g))) = snd (py_dict_run ops d).
+Proof. exact dict_history_eq_python. Qed.
+Print Assumptions c38_dict_history_eq_python.
+
+Theorem c38_dict_history_events_account_guarded : forall ops d g, d_wf d ->
+  dict_guarded ops (d, g) = true ->
+  let '(_, (d', g')) := sa_dict_run ops (d, g) in
+  d_wf d' /\ forall x, countZ x (d_values d') - countZ x (d_values d) = net x g' - net x g.
+Proof. exact dict_history_accounted. Qed.
+Print Assumptions c38_dict_history_events_account_guarded.
+
+(* ============================== non-vacuity ============================== *)
+(* the three witnesses of the repaired slice-assignment defect: result, contents and the exact
+   event log of the instrumented list, next to the builtin *)
+Example c38_ex_fixed_negative_start :
+  sa_list_run1 [0;1;2] (LSetSlice (sl (Some (-5)) (Some 2) None) (VList [7]))
+  = (Ok RNone, [7;2], [ERem 0; ERem 1; EAdd 7]) /\
+  py_list_op [0;1;2] (LSetSlice (sl (Some (-5)) (Some 2) None) (VList [7])) = (Ok RNone, [7;2]).
+Proof. exact fixed_negative_start. Qed.
+Example c38_ex_fixed_reversed :
+  sa_list_run1 [0;1;2] (LSetSlice (sl None None (Some (-1))) (VList [7;8;9]))
+  = (Ok RNone, [9;8;7], [ERem 2; EAdd 7; ERem 1; EAdd 8; ERem 0; EAdd 9]) /\
+  py_list_op [0;1;2] (LSetSlice (sl None None (Some (-1))) (VList [7;8;9])) = (Ok RNone, [9;8;7]).
+Proof. exact fixed_reversed. Qed.
+Example c38_ex_fixed_stop_unclamped :
+  sa_list_run1 [0;1;2] (LSetSlice (sl (Some 1) (Some 10) (Some 2)) (VList [7]))
+  = (Ok RNone, [0;7;2], [ERem 1; EAdd 7]) /\
+  py_list_op [0;1;2] (LSetSlice (sl (Some 1) (Some 10) (Some 2)) (VList [7])) = (Ok RNone, [0;7;2]).
+Proof. exact fixed_stop_unclamped. Qed.
+
+(* the guards hold on ordinary histories, which raise and mutate *)
+Example c38_ex_list_history :
+  let ops := [LAppend 3; LSetSlice (sl (Some (-1)) None (Some (-2))) (VList [8;9]); LPop (Some 9);
+              LDelSlice (sl None None (Some 2)); LRemove 9; LInsert (-7) 5; LIAdd VSelf] in
+  all_guard list_eq_guard ops [0;1;2] = true /\
+  sa_guarded list_acct_guard ops ([0;1;2], []) = true /\
+  sa_list_run ops ([0;1;2], []) =
+    ([Ok RNone; Ok RNone; Raise IndexError; Ok RNone; Ok RNone; Ok RNone; Ok RSelf],
+     ([5;8;5;8],
+      [EAdd 3; ERem 3; EAdd 8; ERem 1; EAdd 9; ERem 0; ERem 2; ERem 9; EAdd 5; EAdd 5; EAdd 8])).
+Proof. repeat split; vm_compute; reflexivity. Qed.
+
+(* an iteration order satisfying the hypothesis of the set theorems, and a set history *)
+Example c38_ex_ord : forall l : list Z, Permutation ((fun l => l) l) l.
+Proof. intro l. apply Permutation_refl. Qed.
+Example c38_ex_set_history :
+  sa_set_run (fun l => l) [SUpdate (AList [3;0;3]); SIxor (ASet [0;5]); SInterUpdate ASelf; SRemove 9; SPop]
+             ([0;1], []) =
+  ([Ok RNone; Ok RSelf; Ok RNone; Raise KeyError; Ok (RItem 1)],
+   ([3;5], [EAdd 3; ESame 0; ESame 3; ERem 0; EAdd 5; ERem 1])).
+Proof. vm_compute; reflexivity. Qed.
+
+Example c38_ex_dict_history :
+  let ops := [DUpdate (UPairs [(0, 7); (2, 2); (0, 7)]) [(1, 1)]; DSetDefault 2 2; DPop 9 None; DPopItem] in
+  d_wf [(0, 0); (1, 1)] /\ dict_guarded ops ([(0, 0); (1, 1)], []) = true /\
+  sa_dict_run ops ([(0, 0); (1, 1)], []) =
+    ([Ok RNone; Ok (RItem 2); Raise KeyError; Ok (RPair 2 2)],
+     ([(0, 7); (1, 1)], [ERem 0; EAdd 7; EAdd 2; ESame 7; ESame 1; ESame 2; ERem 2])).
+Proof.
+  repeat split; try (vm_compute; reflexivity).
+  unfold d_wf. cbn. repeat constructor; cbn; intuition discriminate.
+Qed.
